@@ -100,9 +100,50 @@ fn accepted_any_case(g: &mut Gen, ctx: &mut Ctx) -> CaseResult {
     expect_eq(&format!("accepted {} ({}): verify_tag", kind.name(), hex_trunc(&bytes, 60)), &d, &ref_mac_structure(cname, &w, &aad, &payload))
 }
 
+/// A built protected header that has no encoding is refused by every helper (nothing is MACed
+/// for it — in particular not the bytes of a different header).
+fn unencodable_case(g: &mut Gen, ctx: &mut Ctx) -> CaseResult {
+    let (bad, sibling) = gen_unencodable_header(g, ctx);
+    let aad = g.small_bytes();
+    let payload = g.small_bytes();
+    let c = if g.bool() { MacContext::CoseMac } else { MacContext::CoseMac0 };
+    ctx.nontrivial(hash_bytes(format!("u|{:?}|{:?}", bad, aad).as_bytes()));
+    ctx.sample_with(|| format!("built protected header without an encoding: {:?}", bad));
+    let pb = coset::ProtectedHeader { original_data: None, header: bad.clone() };
+    let ps = coset::ProtectedHeader { original_data: None, header: sibling.clone() };
+    let want_sibling = crate::run::catch(|| mac_structure_data(c, ps.clone(), &aad, &payload));
+    match crate::run::catch(|| mac_structure_data(c, pb.clone(), &aad, &payload)) {
+        Err(_) => {}
+        Ok(b) => {
+            ensure!(Some(&b) != want_sibling.as_ref().ok(), "mac_structure_data: a protected header that cannot be encoded shares to-be-MACed bytes with a different header\n  header:  {:?}\n  sibling: {:?}", bad, sibling);
+            fail!("mac_structure_data produced {} for a protected header that has no encoding: {:?}", hex_trunc(&b, 80), bad);
+        }
+    }
+    let called = RefCell::new(0u32);
+    let f = |_: &[u8]| {
+        *called.borrow_mut() += 1;
+        vec![1u8]
+    };
+    let r = if g.bool() {
+        crate::run::catch(|| CoseMac0Builder::new().protected(bad.clone()).payload(payload.clone()).create_tag(&aad, f).build().tag)
+    } else {
+        crate::run::catch(|| CoseMacBuilder::new().protected(bad.clone()).payload(payload.clone()).create_tag(&aad, f).build().tag)
+    };
+    ensure!(r.is_err() && *called.borrow() == 0, "create_tag MACed something for a protected header that has no encoding: {:?}", bad);
+    // verify side
+    let m = CoseMac0 { protected: pb, unprotected: Header::default(), payload: Some(payload.clone()), tag: vec![1] };
+    let called = RefCell::new(0u32);
+    let r = crate::run::catch(|| m.verify_tag(&aad, |_, _| -> Result<(), u8> { *called.borrow_mut() += 1; Ok(()) }));
+    ensure!(r.is_err() && *called.borrow() == 0, "verify_tag handed the verifier something for a protected header that has no encoding: {:?}", bad);
+    Ok(())
+}
+
 fn case(g: &mut Gen, ctx: &mut Ctx) -> CaseResult {
     if g.ratio(1, 5) {
         return wire_carrier_case(g, ctx);
+    }
+    if g.ratio(1, 12) {
+        return unencodable_case(g, ctx);
     }
     if g.ratio(1, 5) {
         return accepted_any_case(g, ctx);
